@@ -43,6 +43,7 @@ def decField (e : Endian) (all : List Member) (n : String) (t : Ty) (k : MKind) 
       if (data.length : Int) - (pos0 : Int) < (c : Int) then .error .prophy
       else pure (Val.bytes (slice data pos0 c), c, hints)
     | _ => do
+      if (f.size : Int) > (data.length : Int) - (pos0 : Int) then .error .prophy
       let (vs, cur) ← decN (fun d q => decTy e t d q false) c data pos0 0
       pure (Val.arr vs, cur, hints)
   | .dyn _ _ => do
@@ -218,7 +219,8 @@ theorem decField_tot (e : Endian) (all : List Member) (n : String) (t : Ty) (k :
     · split
       · exact Tot.err
       · exact Tot.pure _
-    · refine Tot.bind (decN_tot _ (fun d q => ht d q false) _ _ _ _) ?_
+    · refine Tot.guardErr ?_
+      refine Tot.bind (decN_tot _ (fun d q => ht d q false) _ _ _ _) ?_
       rintro ⟨vs, cur⟩ _
       exact Tot.pure _
   | dyn s sh =>
@@ -371,11 +373,13 @@ theorem decField_pos {e : Endian} {all : List Member} {n : String} {t : Ty} {k :
       · simp only [pure, Except.pure] at h
         injection h with h; injection h with h1 h2; injection h2 with h2 h3
         omega
-    · obtain ⟨⟨ws, cur⟩, hx, h⟩ := bind_ok h
-      simp only [pure, Except.pure] at h
-      injection h with h; injection h with h1 h2; injection h2 with h2 h3
-      have := decN_ge _ data hel c pos0 0 ws cur hx
-      omega
+    · split at h
+      · cases h
+      · obtain ⟨⟨ws, cur⟩, hx, h⟩ := bind_ok h
+        simp only [pure, Except.pure] at h
+        injection h with h; injection h with h1 h2; injection h2 with h2 h3
+        have := decN_ge _ data hel c pos0 0 ws cur hx
+        omega
 
 theorem unionSt_size_pos (fs : List St) : 1 ≤ (unionSt fs).size := by
   simp only [unionSt, flagSize]; omega
@@ -556,8 +560,10 @@ theorem decField_hints {e : Endian} {all : List Member} {n : String} {t : Ty} {k
     · split at h
       · cases h
       · exact (ok3 h).2.2.symm
-    · obtain ⟨⟨ws, cur⟩, hx, h⟩ := bind_ok h
-      exact (ok3 h).2.2.symm
+    · split at h
+      · cases h
+      · obtain ⟨⟨ws, cur⟩, hx, h⟩ := bind_ok h
+        exact (ok3 h).2.2.symm
   | dyn s sh =>
     left
     refine ⟨?_, fun h => by cases h⟩
@@ -951,10 +957,12 @@ theorem decField_cnt {e : Endian} {all : List Member} {n : String} {t : Ty} {k :
     · split at h
       · cases h
       · rw [ok3' h]; simp [cntField, cntLen, MKind.sizer?]
-    · obtain ⟨⟨ws, cur⟩, hx, h⟩ := bind_ok h
-      rw [ok3' h]
-      simp only [cntField, cntLen, MKind.sizer?, Bool.true_and]
-      exact (hN _ _ _ _ _ _ hx).2
+    · split at h
+      · cases h
+      · obtain ⟨⟨ws, cur⟩, hx, h⟩ := bind_ok h
+        rw [ok3' h]
+        simp only [cntField, cntLen, MKind.sizer?, Bool.true_and]
+        exact (hN _ _ _ _ _ _ hx).2
   | dyn s sh =>
     simp only [decField] at h
     obtain ⟨c, hc, h⟩ := bind_ok h
